@@ -44,8 +44,8 @@ type keyState struct {
 	ver     string // "" = fresh but unknown (PutMany)
 	a, b    int64  // stamps of the mutation that produced it (invoke, return)
 	at      time.Time
-	pending bool   // the mutation is in flight: it may or may not have taken effect
-	known   bool   // ver is the version the implementation reported
+	pending bool // the mutation is in flight: it may or may not have taken effect
+	known   bool // ver is the version the implementation reported
 }
 
 type waitState struct {
@@ -68,31 +68,33 @@ type world struct {
 	shadowRan   bool
 	shadowMsg   string
 	stopJudging bool
-	c     *sim.Case
-	e     *sim.Env
-	mode  string
-	be    *backend.Backend
-	tasks []*taskState
-	nDone int
-	m     *model
-	hist  []histOp
-	allVers map[string]string // version -> first writer description (C02 b)
+	c           *sim.Case
+	e           *sim.Env
+	mode        string
+	be          *backend.Backend
+	tasks       []*taskState
+	nDone       int
+	m           *model
+	hist        []histOp
+	allVers     map[string]string // version -> first writer description (C02 b)
 	// C07
-	states   map[string][]keyState
-	mutTok   zsimrt.Mutex
-	inFlight int
-	waits    []*waitState
+	states     map[string][]keyState
+	mutTok     zsimrt.Mutex
+	inFlight   int
+	waits      []*waitState
 	lastMutRet map[string]time.Time
-	phase    int
-	pollBound time.Duration
+	phase      int
+	pollBound  time.Duration
 	// C06 "expwait" mode: several waiters parked across one expiry instant
-	expAt map[string]time.Time
+	expAt            map[string]time.Time
+	expWrites        map[string][]expWrite
+	lastCreateFailed bool
 	// last value written per key (for writes that deliberately keep the value)
 	lastVal map[string]string
 	// C02 "expiry phase": a setup task writes (partly expiring) records, time passes,
 	// then the concurrent phase starts from that state
-	initState map[string]linState
-	setupExpiring map[string]bool // key -> the setup write in progress carries a short expiry
+	initState     map[string]linState
+	setupExpiring map[string]bool      // key -> the setup write in progress carries a short expiry
 	setupExpAt    map[string]time.Time // key -> expiry instant written by the setup task
 	skipKey       map[string]bool      // key -> a concurrent-phase operation started before that instant: not judged
 	opStart       map[string]time.Time // task -> start of its current operation
@@ -102,7 +104,7 @@ type world struct {
 }
 
 func New(c *sim.Case) (sim.World, error) {
-	return &world{c: c, mode: c.Mode, allVers: map[string]string{}, states: map[string][]keyState{}, lastMutRet: map[string]time.Time{}, expAt: map[string]time.Time{}, lastVal: map[string]string{}, initState: map[string]linState{}, setupExpiring: map[string]bool{}, setupExpAt: map[string]time.Time{}, skipKey: map[string]bool{}, opStart: map[string]time.Time{}, beforeMut: map[string][]func(){}, afterMut: map[string][]func(){}}, nil
+	return &world{c: c, mode: c.Mode, allVers: map[string]string{}, states: map[string][]keyState{}, lastMutRet: map[string]time.Time{}, expAt: map[string]time.Time{}, expWrites: map[string][]expWrite{}, lastVal: map[string]string{}, initState: map[string]linState{}, setupExpiring: map[string]bool{}, setupExpAt: map[string]time.Time{}, skipKey: map[string]bool{}, opStart: map[string]time.Time{}, beforeMut: map[string][]func(){}, afterMut: map[string][]func(){}}, nil
 }
 
 func (w *world) prop() string { return w.c.Prop }
@@ -304,12 +306,22 @@ func (w *world) doOp(ctx context.Context, ts *taskState, op sim.Op, i int) {
 		return
 	}
 	seq := w.mode == "seq" || w.mode == "exp"
-	if w.mode == "expwait" && (op.K == "put" || op.K == "create") && op.D > 0 {
-		defer func(k string, at time.Time) {
-			if _, ok := w.expAt[k]; !ok {
-				w.expAt[k] = at
+	if w.mode == "expwait" && (op.K == "put" || op.K == "create") {
+		inv := time.Now()
+		defer func(k string, d int64) {
+			// (a failed Create wrote nothing; it is not logged)
+			if op.K == "create" && w.lastCreateFailed {
+				return
 			}
-		}(op.S, time.Now().Add(time.Duration(op.D)))
+			wr := expWrite{inv: inv, ret: time.Now()}
+			if d != 0 {
+				wr.exp = expOf(d, inv)
+			}
+			w.expWrites[k] = append(w.expWrites[k], wr)
+			if _, ok := w.expAt[k]; !ok && d > 0 {
+				w.expAt[k] = inv.Add(time.Duration(d))
+			}
+		}(op.S, op.D)
 	}
 	conc := w.mode == "conc"
 	wmode := w.mode == "wait"
@@ -379,6 +391,7 @@ func (w *world) doOp(ctx context.Context, ts *taskState, op sim.Op, i int) {
 		if err == nil || o.Err == "ErrExist" {
 			ts.see(op.S, ver)
 		}
+		w.lastCreateFailed = err != nil
 		if seq {
 			msg = w.m.applyCreate(op.S, op.V, exp, &o, t0, t1)
 			w.shadow(func(m *model) string { oo := o; return m.applyCreate(nrm(op.S), op.V, exp, &oo, t0, t1) })
@@ -676,6 +689,71 @@ func (w *world) doOp(ctx context.Context, ts *taskState, op sim.Op, i int) {
 	}
 }
 
+// expWrite: one record written in mode expwait (no deletes there).
+type expWrite struct {
+	inv, ret time.Time
+	exp      *time.Time
+}
+
+// maybeAbsent: may the key have been absent at some instant of [a, b]? Generous
+// (2 ms around expiry instants, a write counts from its invocation to its return).
+func (w *world) maybeAbsent(key string, a, b time.Time) bool {
+	ws := w.expWrites[key]
+	if len(ws) == 0 || !a.After(ws[0].ret) {
+		return true
+	}
+	for i, r := range ws {
+		if r.exp == nil {
+			continue
+		}
+		from := r.exp.Add(-2 * time.Millisecond)
+		to := time.Time{}
+		if i+1 < len(ws) {
+			to = ws[i+1].ret
+		}
+		// [from, to] (to open-ended for the last record) against [a, b]
+		if !b.Before(from) && (to.IsZero() || !a.After(to)) {
+			return true
+		}
+	}
+	return false
+}
+
+// surelyAbsentFor: the longest stretch of [a, b] during which the key was surely
+// absent (from a record's expiry to the invocation of the next write).
+func (w *world) surelyAbsentFor(key string, a, b time.Time) time.Duration {
+	var best time.Duration
+	ws := w.expWrites[key]
+	for i, r := range ws {
+		if r.exp == nil {
+			continue
+		}
+		s, e := *r.exp, b
+		if i+1 < len(ws) && ws[i+1].inv.Before(e) {
+			e = ws[i+1].inv
+		}
+		if s.Before(a) {
+			s = a
+		}
+		if d := e.Sub(s); d > best {
+			best = d
+		}
+	}
+	return best
+}
+
+func (w *world) expWritesStr(key string) string {
+	var p []string
+	for _, r := range w.expWrites[key] {
+		x := "no expiry"
+		if r.exp != nil {
+			x = "expires at +" + r.exp.Sub(w.e.Start).String()
+		}
+		p = append(p, fmt.Sprintf("[written +%v, %s]", r.inv.Sub(w.e.Start), x))
+	}
+	return strings.Join(p, " ")
+}
+
 // nrm is the key identification of the shadow model (knob slash_keys).
 func nrm(k string) string { return strings.TrimLeft(k, "/") }
 
@@ -945,28 +1023,28 @@ func (w *world) doWait(ctx context.Context, ts *taskState, op sim.Op, i int, seq
 		return
 	}
 	if w.mode == "expwait" {
-		exp, written := w.expAt[key]
+		_, written := w.expAt[key]
 		if !written || ver == "" || strings.HasPrefix(ver, "01BOGUS") {
 			return // the record was not there when the waiter started: nothing to judge
 		}
 		slack := w.pollBound + 8*e.RT.MaxParked
 		switch o.Err {
 		case "ErrNotExist":
-			if t1.Before(exp.Add(-2 * time.Millisecond)) {
+			if !w.maybeAbsent(key, ws.invAt, t1) {
 				if w.prop() == "C07" {
-					e.Violate("C07", "invented_absence", "[%s backend] WaitForVersionChange(%q) of %s returned ErrNotExist %v before the record's expiration, while the key was present", w.be.Kind, key, ts.name, exp.Sub(t1))
+					e.Violate("C07", "invented_absence", "[%s backend] WaitForVersionChange(%q) of %s returned ErrNotExist, but the key was present during the whole call (records written: %s)", w.be.Kind, key, ts.name, w.expWritesStr(key))
 				} else {
-					e.Violate("C06", "live_record_dropped", "[%s backend] WaitForVersionChange(%q) of %s returned ErrNotExist %v before the record's expiration: a record whose expiration lies in the future was dropped", w.be.Kind, key, ts.name, exp.Sub(t1))
+					e.Violate("C06", "live_record_dropped", "[%s backend] WaitForVersionChange(%q) of %s returned ErrNotExist although the record of the key had not expired at any moment of the call: a record whose expiration lies in the future was dropped (records written: %s)", w.be.Kind, key, ts.name, w.expWritesStr(key))
 				}
 			} else {
 				e.Probe("waiter_released_by_expiry")
 			}
 		case "ctx":
-			if ws.cancelAt.After(exp.Add(slack)) {
+			if gone := w.surelyAbsentFor(key, ws.invAt, ws.cancelAt); gone > slack {
 				if w.prop() == "C07" {
-					e.Violate("C07", "not_prompt_after_expiry", "[%s backend] WaitForVersionChange(%q) of %s was still blocked %v after the record had expired (the key is absent from then on) and ended only with its context: it must return ErrNotExist promptly", w.be.Kind, key, ts.name, ws.cancelAt.Sub(exp))
+					e.Violate("C07", "not_prompt_after_expiry", "[%s backend] WaitForVersionChange(%q) of %s was still blocked %v after the record had expired (the key is absent from then on) and ended only with its context: it must return ErrNotExist promptly", w.be.Kind, key, ts.name, gone)
 				} else {
-					e.Violate("C06", "expired_not_as_deleted", "[%s backend] WaitForVersionChange(%q) of %s (one of several waiters on the key) was still blocked %v after the record expired and ended only with its context: an expired record must end the wait with ErrNotExist", w.be.Kind, key, ts.name, ws.cancelAt.Sub(exp))
+					e.Violate("C06", "expired_not_as_deleted", "[%s backend] WaitForVersionChange(%q) of %s (one of several waiters on the key) was still blocked %v after the record expired and ended only with its context: an expired record must end the wait with ErrNotExist", w.be.Kind, key, ts.name, gone)
 				}
 			} else {
 				e.Probe("waiter_cancelled_before_expiry")
